@@ -30,7 +30,7 @@ def _trace(calc, shot, R):
         return e.incomplete_trajectory
 
 
-def check(calc, shot, la, R, step, tr):
+def check(calc, shot, la, R, step, tr, time_step=0.0):
     import py_ballisticcalc as pb
     U = pb.Unit
     lar = math.radians(la)
@@ -45,7 +45,7 @@ def check(calc, shot, la, R, step, tr):
     machs = [i for i in range(1, len(tr)) if M[i - 1] > 1 > M[i]]
     mt = any(m == 1 for m in M)
     try:
-        rows = calc.fire(shot, U.Foot(R), U.Foot(step), True).trajectory
+        rows = calc.fire(shot, U.Foot(R), U.Foot(step), True, time_step).trajectory
     except pb.RangeError as e:
         rows = e.incomplete_trajectory
     out = []
@@ -120,11 +120,13 @@ def check(calc, shot, la, R, step, tr):
 def trace_cell(cell):
     import py_ballisticcalc as pb
     U = pb.Unit
-    sh, bar, la, mv = cell
+    sh, bar, la, mv = cell[:4]
+    opt = cell[4] if len(cell) > 4 else {}
     calc = make_calc()
     dm = pb.DragModel(0.223, pb.TableG7, U.Grain(168), U.Inch(0.308), U.Inch(1.2))
     w = pb.Weapon(U.Inch(sh), U.Inch(0))
-    shot = pb.Shot(w, pb.Ammo(dm, U.FPS(mv)), look_angle=U.Degree(la))
+    winds = [pb.Wind(U.MPH(25), U.Degree(20), U.Yard(150)), pb.Wind(U.MPH(25), U.Degree(200))] if opt.get('wind') else None
+    shot = pb.Shot(w, pb.Ammo(dm, U.FPS(mv)), look_angle=U.Degree(la), winds=winds)
     try:
         if bar == 'z100':
             calc.set_weapon_zero(shot, U.Yard(100))
@@ -150,7 +152,7 @@ def trace_cell(cell):
     for st in steps:
         if st < 0.5:
             continue
-        o, ev = check(calc, shot, la, R, st, tr)
+        o, ev = check(calc, shot, la, R, st, tr, opt.get('time_step', 0.0))
         n += 1
         profiles.add(ev[:3])
         for m in o:
@@ -257,6 +259,8 @@ PARTS = {'trace': trace_cell, 'filter': filt}
 
 def plan(tier):
     tr = [list(c) for c in itertools.product((2.0, 0.0, -1.0), ('z100', 'z300', 'along', 'below'), (0.0, 20.0, -20.0), (2750.0, 1150.0, 1000.0))]
+    tr += [[sh, bar, la, mv, opt] for sh in (2.0, -1.0) for bar in ('z100', 'z300') for la in (0.0, 20.0) for mv in (2750.0, 1150.0)
+           for opt in ({'wind': True}, {'time_step': 0.05}, {'wind': True, 'time_step': 0.003})]
     n = 4 if tier == 'quick' else 5
     fl = [[s, b, n, rs] for s in ('below', 'on', 'above') for b in ('above', 'equal', 'below') for rs in (2.0, 4.0)]
     return [('trace', tr), ('filter', fl)]
